@@ -1441,6 +1441,7 @@ class Simulation:
 
         # Replace residual by provided vector
         # (division by weight is undone in gradient).
+        residual = self.data.residual.data.copy()
         with np.errstate(invalid='ignore'):  # (For division by cplx-NaN.)
             self.data.residual[...] = vector/self.data.weights.data
 
@@ -1450,8 +1451,18 @@ class Simulation:
             if hasattr(self, name):
                 delattr(self, name)
 
-        # Return gradient from weighted residual `vector`.
-        return self.gradient
+        # Get gradient from weighted residual `vector`.
+        jtvec = self.gradient
+
+        # Restore the residual and reset the gradient, so that these always
+        # correspond to the misfit.
+        self.data.residual[...] = residual
+        self._gradient = None
+        for name in ['_dict_bfield', '_dict_bfield_info']:
+            if hasattr(self, name):
+                delattr(self, name)
+
+        return jtvec
 
     # UTILS
     @property
